@@ -1,7 +1,7 @@
 """C10 — every outcome is a well-formed, serialisable response."""
 import ast
 
-from .. import shapes, excflow
+from .. import shapes, excflow, boolx
 from ..model import AnalysisError, own_nodes, norm_stmt
 
 EXC = "py_gql.exc"
@@ -72,7 +72,8 @@ def check(prog, run):
         if len(calls) != 1 or tuple(ast.unparse(a) for a in calls[0].args) != want:
             run.report(r, "%s:%s.to_dict:location-source" % (EXC, cname), td.where(), "locations are not index_to_loc(%s, %s)" % want)
         if cname == "GraphQLLocatedError":
-            guards = [ast.unparse(g) for n in ast.walk(td.node) if isinstance(n, ast.comprehension) for g in n.ifs]
+            # the filter clauses of each comprehension taken together (`if a and b` and `if a if b` are the same filter)
+            guards = [" and ".join(ast.unparse(g) for g in n.ifs) for n in ast.walk(td.node) if isinstance(n, ast.comprehension) and n.ifs]
             r.instance("node guard %s" % guards)
             if not any("node.loc" in g and "node.source" in g for g in guards):
                 run.report(r, "%s:GraphQLLocatedError.to_dict:unguarded" % EXC, td.where(), "nodes without loc/source are not filtered before index_to_loc")
@@ -332,22 +333,30 @@ def check(prog, run):
 
 
 def _defensive_default(raise_stmt):
-    """Is this raise the trailing else of an if/elif chain on `<x>.operation == <kind>` covering all three kinds?"""
-    par = getattr(raise_stmt, "_parent", None)
-    if not isinstance(par, ast.If) or raise_stmt not in par.orelse:
+    """Is this raise reached only after the operation kind was compared with all of query / mutation / subscription and
+    found different?  (path form: on every execution that ends in this raise, the three `<x>.operation == '<kind>'`
+    tests were decided false — whatever the shape of the chain)"""
+    import re
+    from ..model import enclosing_func_node
+    fn = enclosing_func_node(raise_stmt)
+    if fn is None:
         return False
-    kinds = set()
-    cur = par
-    while isinstance(cur, ast.If):
-        t = cur.test
-        if isinstance(t, ast.Compare) and isinstance(t.ops[0], ast.Eq) and ast.unparse(t.left).endswith(".operation") and isinstance(t.comparators[0], ast.Constant):
-            kinds.add(t.comparators[0].value)
-        up = getattr(cur, "_parent", None)
-        if isinstance(up, ast.If) and cur in up.orelse:
-            cur = up
-        else:
-            break
-    return kinds >= {"query", "mutation", "subscription"}
+    try:
+        _ev, exits = boolx.walk_under(fn, lambda t: None)
+    except ValueError:
+        return False
+    mine = [(k, st, env) for k, st, env in exits if k == "raise" and st is raise_stmt]
+    if not mine:
+        return False
+    for _k, _st, env in mine:
+        false_kinds = set()
+        for t, v in env.get(boolx.TESTS, ()):
+            m = re.match(r"^[\w.]+\.operation == '(\w+)'$", t)
+            if m and v is False:
+                false_kinds.add(m.group(1))
+        if not false_kinds >= {"query", "mutation", "subscription"}:
+            return False
+    return True
 
 
 def _rejects_nonfinite(cf):
